@@ -98,6 +98,13 @@ impl AttributeParser {
     }
 
     fn parse_group(&mut self, name: Ident, group: TokenStream) -> Nested {
+        // Consume the separator, so that further arguments may follow a `name(...)` group
+        let tail = self.collect_tail(Empty);
+
+        if !tail.is_empty() {
+            return Nested::Unexpected(tail);
+        }
+
         Nested::Named(name, NestedValue::Group(group))
     }
 
